@@ -271,6 +271,9 @@ func TestC04Rapid(t *testing.T) {
 		}
 		// one history in four is committed by an output that covers far more withdrawals than these
 		w.extraLevels = rapid.SampledFrom([]int{0, 0, 0, 0, 0, 0, 0, 0, 0, 3, 10, 13, 14, 15, 16, 17, 20, 29, 32, 40, 61, 64}).Draw(rt, "extraLevels")
+		if tc.resendProposals = rapid.IntRange(0, 2).Draw(rt, "resendProposals") == 0; tc.resendProposals {
+			c.Class("proposals-delivered-twice")
+		}
 		if w.sendDisabled = rapid.IntRange(0, 5).Draw(rt, "sendDisabled") == 0; w.sendDisabled {
 			c.Class("l1-bank-send-disabled-before-the-claims")
 		}
